@@ -46,6 +46,21 @@ func zzSourceCache(capv int64) (*Store[uint64, uint64], []zzSaved, int64) {
 			s.Get(2)
 		}
 	}
+	if hot := vfConfig("HOT", 0); hot > 0 {
+		// a cache that was much fuller than what it saves: the first HOT keys are read until their counters
+		// saturate in a sketch sized for all N, the others are deleted; the new cache sizes its sketch for
+		// the survivors only, so the saved frequencies add up to more than one of its sample periods
+		for r := 0; r < 16; r++ {
+			for i := 0; i < hot; i++ {
+				s.Get(uint64(i + 1))
+			}
+		}
+		for i := hot; i < n; i++ {
+			s.Delete(uint64(i + 1))
+		}
+		s.Wait()
+		vfReach("hot-survivors")
+	}
 	if vfConfig("HITALL", 0) == 1 {
 		// promotions without a following write: the protected region is above its size when the cache is saved
 		for r := 0; r < 16; r++ {
